@@ -45,7 +45,11 @@ where
     pub const fn new(modulus: Odd<Uint<LIMBS>>) -> Self {
         // `R mod modulus` where `R = 2^BITS`.
         // Represents 1 in Montgomery form.
-        let one = Uint::MAX.rem(modulus.as_nz_ref()).wrapping_add(&Uint::ONE);
+        // (the sum equals the modulus itself when the modulus is 1, hence the second reduction)
+        let one = Uint::MAX
+            .rem(modulus.as_nz_ref())
+            .wrapping_add(&Uint::ONE)
+            .rem(modulus.as_nz_ref());
 
         // `R^2 mod modulus`, used to convert integers to Montgomery form.
         let r2 = one
@@ -85,9 +89,11 @@ impl<const LIMBS: usize> MontyParams<LIMBS> {
     pub const fn new_vartime(modulus: Odd<Uint<LIMBS>>) -> Self {
         // `R mod modulus` where `R = 2^BITS`.
         // Represents 1 in Montgomery form.
+        // (the sum equals the modulus itself when the modulus is 1, hence the second reduction)
         let one = Uint::MAX
             .rem_vartime(modulus.as_nz_ref())
-            .wrapping_add(&Uint::ONE);
+            .wrapping_add(&Uint::ONE)
+            .rem_vartime(modulus.as_nz_ref());
 
         // `R^2 mod modulus`, used to convert integers to Montgomery form.
         let r2 = Uint::rem_wide_vartime(one.square_wide(), modulus.as_nz_ref());
